@@ -32,7 +32,8 @@ func configs(prop string, thorough bool) []*Config {
 		if !thorough {
 			return []*Config{c}
 		}
-		c3 := &Config{Name: "C01-3sess", CutMode: 2, OIdent: true, OIntact: true,
+		// three sessions in flight: cleanup only with the no-op cut-off (the 2-session alphabet walks every cut-off)
+		c3 := &Config{Name: "C01-3sess", CutMode: 1, OIdent: true, OIntact: true, MaxStates: 4000000,
 			Sess: []SessDef{
 				{ID: "1", PID: "101", Events: full},
 				{ID: "2", PID: "102", Events: full},
